@@ -24,6 +24,7 @@ pub struct Out {
     pub samples: Vec<String>,
     pub exhaustive: Vec<String>,
     pub notes: Vec<String>,
+    inflight: File,
 }
 
 pub fn json_str(s: &str) -> String {
@@ -55,7 +56,16 @@ impl Out {
             samples: Vec::new(),
             exhaustive: Vec::new(),
             notes: Vec::new(),
+            inflight: File::create(format!("{}.inflight", cases_path)).expect("create inflight file"),
         }
+    }
+    /// record the input about to be handed to the implementation, so that a run the
+    /// implementation brings down (SIGSEGV at a guard page, abort, stack overflow) can still name it
+    pub fn inflight(&mut self, what: &str) {
+        use std::io::{Seek, SeekFrom};
+        let _ = self.inflight.set_len(0);
+        let _ = self.inflight.seek(SeekFrom::Start(0));
+        let _ = self.inflight.write_all(what.as_bytes());
     }
     /// one line for the runner: op, args, observed outcome (tab separated)
     pub fn case(&mut self, op: &str, args: &[&str], observed: &str) {
